@@ -106,7 +106,7 @@ type c19Params struct {
 func c19Gen(tier string, seed int64) []fw.Case {
 	n := 4000
 	if tier == "thorough" {
-		n = 250000
+		n = 1000000
 	}
 	var cs []fw.Case
 	for i := 0; i < 16; i++ {
